@@ -3,7 +3,7 @@
 const path = require('path')
 const { encodeMap } = require('./smap')
 
-const SITE_KINDS = ['body', 'operand', 'multiline', 'double', 'arrow', 'method', 'eval', 'callback', 'msg-newline', 'throw', 'helper', 'msg-at']
+const SITE_KINDS = ['body', 'operand', 'multiline', 'double', 'arrow', 'method', 'eval', 'evalfn', 'callback', 'msg-newline', 'throw', 'helper', 'msg-at']
 
 // returns {text, sites:[{k, kind, fn, line, cbLine?}], kind, omap?}
 function genVersion (rng, fi, vi, kind, o) {
@@ -114,6 +114,15 @@ function genVersion (rng, fi, vi, kind, o) {
         add('}')
         break
       }
+      case 'evalfn': {
+        // a function made by eval inside this file, called later by code that is not rewritten: its
+        // stack has an eval frame whose origin is here, and no ordinary frame of this file
+        add(`function ${N} (x) {`)
+        add(plain ? '  const r = x' : "  const r = x + 'f'")
+        site.line = add("  return eval('(function evalMade () { return new Error(\"late\") })')")
+        add('}')
+        break
+      }
       case 'callback': {
         // the Error is created by a site function of (possibly) another file, passed in by the driver
         add(`function ${N}c (x, cb) {`)
@@ -143,14 +152,20 @@ function genVersion (rng, fi, vi, kind, o) {
     const toks = []
     // a leading region without mappings (helper code a transpiler prepended) in some maps
     const gap = rng.chance(1, 3) ? rng.range(1, Math.max(1, mkErrLine + 1)) : 0
-    for (let L = gap; L < nLines; L++) toks.push({ gl: L, gc: 0, src: 0, sl: L * mult + off, sc: 0, name: null })
+    // a bundle of two modules: from line `split` on, positions belong to a second source whose first
+    // mapped line number equals the last mapped line number of the first (line-granular maps do that)
+    const split = rng.chance(1, 3) ? rng.range(Math.max(gap + 1, 2), Math.max(gap + 2, nLines - 2)) : 0
+    const lineOf = (L) => split && L >= split ? (L - split) * mult + ((split - 1) * mult + off) : L * mult + off
+    for (let L = gap; L < nLines; L++) toks.push({ gl: L, gc: 0, src: split && L >= split ? 1 : 0, sl: lineOf(L), sc: 0, name: null })
     const source = rng.pick(['../ts/orig.ts', `src/f${fi}.ts`, `f${fi}v${vi}.ts`])
+    const source2 = `src/second_f${fi}.ts`
     const sourceRoot = rng.pick([undefined, '', 'root', 'root/'])
-    const m = { file: path.basename(o.file), sources: [source], names: [], toks }
+    const m = { file: path.basename(o.file), sources: split ? [source, source2] : [source], names: [], toks }
     if (sourceRoot !== undefined) m.sourceRoot = sourceRoot
     const json = encodeMap(m)
-    const rooted = sourceRoot ? sourceRoot.replace(/\/$/, '') + '/' + source : source
-    v.omap = { json, mult, off, source: rooted, mode: o.omap, gap }
+    const root = (x) => sourceRoot ? sourceRoot.replace(/\/$/, '') + '/' + x : x
+    const rooted = root(source)
+    v.omap = { json, mult, off, source: rooted, source2: root(source2), split, mode: o.omap, gap }
     if (o.omap === 'inline') {
       lines.push('//# sourceMappingURL=data:application/json;base64,' + Buffer.from(json).toString('base64'))
     } else {
